@@ -220,9 +220,9 @@ func buildPlan(id string, pinned map[string]string, tier string) *Plan {
 			"the portable Go counterparts satisfy the same contracts for all inputs: proved under C01 (fields) and C06 (E2), purego build"}
 		p.Assumptions = []string{"bounded: 160 inputs per routine, alias partition and configuration; agreement outside the tried inputs is not shown",
 			"the ADX switch is the package variable supportAdx (set to false for the second configuration); AVX-512 paths are taken as the host CPU offers them (this host: ADX and AVX-512 present)"}
-		p.NotCovered = []string{"assembly routines without an assumed contract: the vector kernels (addVec, subVec, scalarMulVec, sumVec, innerProdVec, mulVec), E2 mulAdxE2 / squareAdxE2 / mulNonRes*, the AVX-512 FFT kernels, Poseidon2 and SIS kernels",
+		p.NotCovered = []string{"assembly routines without an assumed contract: the vector kernels (addVec, subVec, scalarMulVec, sumVec, innerProdVec, mulVec), the AVX-512 FFT kernels, Poseidon2 and SIS kernels",
 			"panic-or-not behaviour, arm64 assembly, CPUs without ADX (the non-ADX path is reached through the package switch only)"}
-		p.Note = "Bounded stand-in, not a proof. For the 18 multi-limb fields: mul, fromMont, reduce, MulBy3/5/13, Butterfly; for the E2 of bn254 and bls12-381: addE2, subE2, doubleE2, negE2. Each assembly routine is called on boundary and random inputs in every alias partition, once with ADX and once with supportAdx = false, and the clauses of the contract that the portable Go routine is proved to satisfy are evaluated on its outputs: on the tried inputs the CPU-specific path and the portable path return the same results."
+		p.Note = "Bounded stand-in, not a proof. For the 18 multi-limb fields: mul, fromMont, reduce, MulBy3/5/13, Butterfly; for the E2 of bn254, bls12-381 and bls24-315: addE2, subE2, doubleE2, negE2, mulAdxE2, squareAdxE2, mulNonResE2 (those the package has). Each assembly routine is called on boundary and random inputs in every alias partition, once with ADX and once with supportAdx = false, and the clauses of the contract that the portable Go routine is proved to satisfy are evaluated on its outputs: on the tried inputs the CPU-specific path and the portable path return the same results."
 		return p
 	case "C10":
 		p := &Plan{ID: id}
